@@ -550,5 +550,14 @@ def r09_6(ctx):
                 f'{outs}', construct=f'{rby.qname}::eof')
 
 
-RULES = [('R09-registry', r09_registry), ('R09.3', r09_3), ('R09.1', r09_1), ('R09-tables', r09_tables), ('R09.2', r09_2),
+def r09_vlq(ctx):
+    """The length prefix is a correct variable-length quantity: the VLQ functions themselves (shared with C08 R08.1)."""
+    from . import c08
+    before = len(ctx.obligations)
+    c08.r08_vlq(ctx)
+    for o in ctx.obligations[before:]:
+        o.rule = 'R09.4'
+
+
+RULES = [('R09-vlq', r09_vlq), ('R09-registry', r09_registry), ('R09.3', r09_3), ('R09.1', r09_1), ('R09-tables', r09_tables), ('R09.2', r09_2),
          ('R09.4', r09_4), ('R09.5', r09_5), ('R09.6', r09_6)]
